@@ -798,7 +798,7 @@ func (g *G) genC15(p *Plan) {
 			{K: "rmbucket", B: b, Status: "force"}, {K: "headbucket", B: b}}
 		c.CrashFrom = 2
 	}
-	if crash && c.IsFS() && g.chance(0.08) {
+	if crash && c.IsFS() && g.chance(0.12) {
 		// an overwrite by a body of the same length, killed at every point,
 		// with the clock stepping (backwards as well) between the two uploads:
 		// what is served afterwards is described by its own ETag
@@ -812,10 +812,11 @@ func (g *G) genC15(p *Plan) {
 		if g.chance(0.5) {
 			ops = append(ops, Op{K: g.pick("get", "head"), B: b, Key: k})
 		}
-		if g.chance(0.4) {
+		if g.chance(0.5) {
 			// the object is deleted first, and the deletion is cut short by a
 			// disk error somewhere between its file and its metadata entry
-			ops = append(ops, Op{K: "del", B: b, Key: k, Faults: []Fault{{Kind: "eio", At: g.n(1, 8)}}})
+			ops = append(ops, Op{K: "del", B: b, Key: k, Faults: []Fault{{Kind: "eio", At: g.pick2(5, 5, 5, 6, 7, 8, 9, 4)}}})
+			c.MtimeRes = g.pick("s", "2s", "s", "ns")
 		}
 		c.CrashFrom = len(ops)
 		ops = append(ops, second)
